@@ -98,6 +98,12 @@ def f4_histories(kind, depth, options=None):
 
 
 def f4_build(kind, opts, seed=0):
+    if kind == 'shortmid-daqmx':
+        hist = f4_build('daqmx', opts, seed)
+        for si, (s_, o) in enumerate(zip(hist, opts)):
+            if isinstance(o, tuple) and (si < len(hist) - 1 or si == 0):
+                s_['short'] = 8 if si % 2 == 0 else 12      # one row of the 8-byte wide buffer / one and a half
+        return hist
     if kind in ('shortmid', 'shortmid-il'):
         # segments that are complete by their own offsets but whose raw data stops inside the last chunk - also in the middle of
         # the file ("less data than expected"); what such a chunk means is fixed by the eager read, the oracle is differential
